@@ -104,6 +104,12 @@ impl CleanMarkerStore {
         #[cfg(walrus_verif)]
         crate::wal::verif::io_event_rename(&tmp_path, path);
         fs::rename(&tmp_path, path)?;
+        // make the rename durable (see WalIndex::persist)
+        if let Some(parent) = std::path::Path::new(path).parent() {
+            #[cfg(walrus_verif)]
+            crate::wal::verif::io_event("dirsync", &parent.to_string_lossy(), 0, 0);
+            fs::File::open(parent)?.sync_all()?;
+        }
         Ok(())
     }
 }
